@@ -233,7 +233,7 @@ func (w *c15WS) members(cls string) (fields map[string]string, extra map[string]
 }
 
 func runC15(c *Ctx) {
-	nWS := c.N(2000, 30000)
+	nWS := c.N(2000, 100000)
 	root := NewRng(c.Seed).Fork(15)
 	parallel(nWS, 14, func(wi int) {
 		r := root.Fork(uint64(wi))
